@@ -106,7 +106,10 @@ def compile_pred(expr):
     code = compile(expr, "<known-finding>", "eval")
 
     def pred(inputs):
-        env = {"And": And, "Or": Or, "Not": Not, "Implies": Implies, "Eq": Eq}
+        env = {"And": And, "Or": Or, "Not": Not, "Implies": Implies, "Eq": Eq,
+               # int(<text>) as the engine models it (uninterpreted int_val / int_ok over the text)
+               "ival": lambda s: SInt(z3.Function("int_val", z3.StringSort(), z3.IntSort())(s.t)),
+               "iok": lambda s: SBool(z3.Function("int_ok", z3.StringSort(), z3.BoolSort())(s.t))}
         for nm in code.co_names:
             if nm in env:
                 continue
@@ -135,7 +138,9 @@ def known_classes_for(known, task_name):
     for e in known:
         if e.get("task") and e["task"] != task_name:
             continue
-        out.setdefault(e["obligation"], []).append((e["id"], compile_pred(e["when"])))
+        obs = e.get("obligations") or [e["obligation"]]
+        for ob in obs:
+            out.setdefault(ob, []).append((e["id"], compile_pred(e["when"])))
     return out
 
 
@@ -333,6 +338,9 @@ def run_check(mod, prop, tier, seed, a, t0):
     # ---- report
     os.makedirs(os.path.join(VERIF, "replays"), exist_ok=True)
     os.makedirs(os.path.join(VERIF, "evidence"), exist_ok=True)
+    for fn in os.listdir(os.path.join(VERIF, "replays")):
+        if fn.startswith(pid + "_") and fn.endswith(".json"):
+            os.unlink(os.path.join(VERIF, "replays", fn))
     violations = 0
     kf_by_id = {e["id"]: e for e in known}
     for kid, where in sorted(known_hits.items()):
@@ -372,7 +380,7 @@ def run_check(mod, prop, tier, seed, a, t0):
             json.dump(rp, f, indent=1, default=str)
         print(f"VIOLATION property={pid} replay={path}{suffix}")
         if a.verbose:
-            print("   model:", v["model"])
+            print("   model:", str({k: x for k, x in (v["model"] or {}).items() if k != "__observed__"})[:400])
     for b, v in bounded_viol:
         violations += 1
         path = os.path.join(VERIF, "replays", f"{pid}_bounded_{b.name}_{violations}.json")
@@ -387,7 +395,8 @@ def run_check(mod, prop, tier, seed, a, t0):
     for mname in mustfail_missing:
         print(f"CHECKER-ERROR property={pid} must-fail guard {mname} was not refuted (vacuity)")
     for d in xchk["disagreements"][:10]:
-        print(f"CHECKER-ERROR property={pid} engine/CPython disagreement: {json.dumps(d, default=str)[:600]}")
+        print(f"CHECKER-ERROR property={pid} engine/CPython disagreement task={d['task']} path={d['path']}: "
+              f"{json.dumps(d['cpython'].get('mismatch', d['cpython']), default=str)[:300]}")
 
     internal = bool(errors or mustfail_missing or xchk["disagreements"])
     if n_vc == 0:
